@@ -18,6 +18,10 @@ CLAIMED = {
          "Lean proof of the block identity + three-way MD5 differential"),
  "C20": ("proof", "Lean theorems over ALL event sequences: ring invariant (slots are the last 16 puts), fw_reply_routed (unique id in window => exactly one unchanged reply to the asker), fw_unknown_dropped, fw_reply_only_to_recent_asker, fw_stale_not_leaked; correspondence with fw_query.c exhaustive to depth 4 (thorough 5) plus random long sequences",
          "Lean proof by ring invariant + differential correspondence"),
+ "C12": ("proof", "Lean theorems (Props/C12.lean) over a model of read.c/dns_decode in which every receive-buffer read goes through a checked accessor that CAN return stale residue bytes: readname, dns_decode (query and answer, all record types), readtxtbin and dns_get_id return the same result for every residue (no side condition), never read outside the buffer, and never fault except for a write beyond a caller buffer smaller than 63242 bytes (proved sharp; see known findings). Correspondence: 130k directed datagrams x 5 residues through the real decoders vs the model; the property itself is evaluated on the C code (same datagram, different residues) for the decoders and for the whole server loop (filler datagrams leaving genuine-traffic residue before truncated datagrams)",
+         "Lean proof of residue independence + residue-differential on the real code"),
+ "C13": ("proof", "Lean theorems (Props/C13.lean) over a model of handshake_login's sscanf format, glibc inet_pton4, tun_setip and tun_setmtu: for EVERY reply byte string every command handed to system() is the fixed prefix + local device + dotted quad twice + netmask quad, or + ' mtu ' + decimal 201..1500 (DottedQuad proved equivalent to the inet_pton4 model; device names up to 430 bytes, bound sharp). Correspondence: the real handshake_login/tun_setip/tun_setmtu with system() captured (h_cli) vs the model on ~1200 hostile replies x 14 (type, codec) combinations; oracle: regex from the property text on every captured command; stale-reply differential",
+         "Lean proof over all reply bytes (libc scanf/inet_pton models trusted, exercised differentially)"),
 }
 TODO = "check not built yet in this session (planned per DESIGN.md §8); not claimed until its check exists"
 m = {"version": 1, "setup_cmd": "./setup.sh",
